@@ -718,3 +718,10 @@ func (w *World) foldFormat(c ssa.CallInstruction) (string, []ssa.Value, bool) {
 	}
 	return out.String(), rest, true
 }
+
+
+// isParamSSA: v is fn.Params[i] exactly (SSA position, receiver included when there is one).
+func isParamSSA(fn *ssa.Function, v ssa.Value, i int) bool {
+	v = strip(v)
+	return i >= 0 && i < len(fn.Params) && v == ssa.Value(fn.Params[i])
+}
